@@ -61,6 +61,17 @@ type symString struct {
 	b []value
 }
 
+// symFloat is an exact rational num/div standing for a float64 that was
+// produced from a symbolic integer (float64(x), Duration.Hours/Minutes/Seconds).
+// It supports only negation, math.Abs, comparison with integer-valued floats
+// and truncating conversion back to an integer; the claim that float64
+// arithmetic is exact on the value range involved is a stated assumption of
+// the harness that uses it.
+type symFloat struct {
+	num *term.Term // 64-bit signed
+	div int64      // > 0
+}
+
 // symAddr is the address of base[idx] for a symbolic, in-range idx.
 type symAddr struct {
 	base []value
